@@ -39,14 +39,28 @@ Record rcase := mkR { r_id : N; r_ts : list Z; r_obs : list bool }.
 Record ccase := mkC { k_id : N; k_interval : Z; k_burst : Z }.
 (* part "conc": per fresh source address, x_rows = (datagrams sent - the first ones
    handled concurrently -, responses received); all datagrams carry x_d's payload *)
-Record xcase := mkX { x_id : N; x_svc : svc; x_d : dgram; x_rows : list (Z * Z) }.
-Inductive case := CS (c : scase) | CR (c : rcase) | CC (c : ccase) | CX (c : xcase).
+Record xcase := mkX { x_id : N; x_svc : svc; x_d : dgram; x_elapsed : Z; x_rows : list (Z * Z) }.
+
+(* part "lim": services.Limiter itself on long call sequences over many keys.  The calls
+   are given as segments: for each of g_keys keys from index g_first on, g_per calls with
+   that key followed by g_flood calls with key 0 (the flooding source) *)
+Record lseg := mkSeg { g_first : Z; g_keys : Z; g_per : Z; g_flood : Z }.
+Record lcase := mkL {
+  l_id : N; l_exact : bool;    (* few enough keys for the model run to be affordable *)
+  l_segs : list lseg;
+  l_elapsed : Z;               (* ns from the first to the last call *)
+  l_other : Z;                 (* grants to addresses that are neither TCP nor UDP (must be 0) *)
+  l_flood : Z;                 (* grants to key 0 *)
+  l_hist : list (Z * Z)        (* (g, number of other keys granted g > 0 times), ascending g *)
+}.
+Inductive case := CS (c : scase) | CR (c : rcase) | CC (c : ccase) | CX (c : xcase) | CL (c : lcase).
 
 Definition SIG_OVER_BURST := 1%N.     (* one source IP received more than 4 responses inside one interval *)
 Definition SIG_INTERFERENCE := 2%N.   (* what a source receives depends on other sources' datagrams *)
 Definition SIG_KEY := 3%N.            (* two different source IPs share a limiter key (or one IP has two) *)
 Definition SIG_RATE_OVER := 4%N.      (* the rate library granted more than burst inside one interval (less 2 ns) *)
 Definition SIG_CONC_OVER := 6%N.      (* a source whose first datagrams were handled concurrently got more than 4 responses *)
+Definition SIG_LONG_RUN := 7%N.       (* services.Limiter granted one key more than burst + elapsed/interval over a long call sequence *)
 Definition SIG_CONSTS := 5%N.         (* NewLimiter: burst above 4 or refill faster than one per 10 min *)
 
 (* ---- CS: property evaluated on the observations alone ---- *)
@@ -167,29 +181,89 @@ Fixpoint uniform (s : list step) : bool :=
   end.
 Definition asks_of (s : list step) : Z := zlen (filter (fun x => match x with SAsk => true | _ => false end) s).
 
+(* everything happens within x_elapsed ns: burst plus what is refilled in that time *)
 Definition xcase_sig (c : xcase) : N :=
-  if existsb (fun row => BURST <? snd row) (x_rows c) then SIG_CONC_OVER else 0%N.
+  if existsb (fun row => BURST + x_elapsed c / I_NS <? snd row) (x_rows c) then SIG_CONC_OVER else 0%N.
 Definition xcase_mismatch (c : xcase) : bool :=
   let sc := script (x_svc c) [] (x_d c) in
-  uniform sc && existsb (fun row => negb (snd row =? Z.min BURST (fst row * asks_of sc))) (x_rows c).
+  (x_elapsed c <? I_NS / 2) && uniform sc && existsb (fun row => negb (snd row =? Z.min BURST (fst row * asks_of sc))) (x_rows c).
 Definition x_full (c : xcase) : bool := existsb (fun row => snd row =? BURST) (x_rows c).
 Definition x_part (c : xcase) : bool := existsb (fun row => (0 <? snd row) && (snd row <? BURST)) (x_rows c).
 Definition xcase_tag (c : xcase) : N := ((if x_full c then 1 else 0) + (if x_part c then 2 else 0))%N.
 
+(* ---- CL ---- *)
+Definition kx (i : Z) : key := [Z.to_N (i / 65536); Z.to_N ((i / 256) mod 256); Z.to_N (i mod 256)].
+
+Fixpoint seg_keys (n : nat) (j per flood : Z) : list Z :=
+  match n with
+  | O => []
+  | S n' => repeat j (Z.to_nat per) ++ repeat 0 (Z.to_nat flood) ++ seg_keys n' (j + 1) per flood
+  end.
+Definition seg_calls (s : lseg) : list Z := seg_keys (Z.to_nat (g_keys s)) (g_first s) (g_per s) (g_flood s).
+
+Fixpoint bump (cnt : list (Z * Z)) (i : Z) : list (Z * Z) :=
+  match cnt with
+  | [] => [(i, 1)]
+  | (j, n) :: r => if j =? i then (j, n + 1) :: r else (j, n) :: bump r i
+  end.
+
+(* the model's limiter over the calls (all inside the no-refill window: clock 0);
+   grants per key index, most recent key first *)
+Fixpoint lrun (l : limiter) (cnt : list (Z * Z)) (calls : list Z) : list (Z * Z) :=
+  match calls with
+  | [] => cnt
+  | i :: r => let '(g, l') := allow l (kx i) 0 in
+              lrun l' (if g then (match cnt with (j, n) :: c' => if j =? i then (j, n + 1) :: c' else (i, 1) :: cnt
+                                  | [] => [(i, 1)] end) else cnt) r
+  end.
+
+(* lrun conses a key again when other keys were granted in between: merge *)
+Definition merge (cnt : list (Z * Z)) : list (Z * Z) :=
+  fold_left (fun acc x => let '(j, n) := x in
+               (fix add (a : list (Z * Z)) := match a with
+                                              | [] => [(j, n)]
+                                              | (j', n') :: r => if j' =? j then (j', n' + n) :: r else (j', n') :: add r
+                                              end) acc) cnt [].
+
+Definition hist_of (cnt : list (Z * Z)) : list (Z * Z) :=
+  filter (fun x => 0 <? snd x)
+    (map (fun g => (g, zlen (filter (fun x => negb (fst x =? 0) && (snd x =? g)) cnt))) [1; 2; 3; 4; 5; 6; 7; 8]).
+
+Definition lcase_model (c : lcase) : Z * list (Z * Z) :=
+  let cnt := merge (lrun [] [] (flat_map seg_calls (l_segs c))) in
+  (fold_left (fun acc x => if fst x =? 0 then acc + snd x else acc) cnt 0, hist_of cnt).
+
+Fixpoint zz_eqb (a b : list (Z * Z)) : bool :=
+  match a, b with
+  | [], [] => true
+  | (x, y) :: a', (x', y') :: b' => (x =? x') && (y =? y') && zz_eqb a' b'
+  | _, _ => false
+  end.
+
+Definition lcase_mismatch (c : lcase) : bool :=
+  if negb (l_other c =? 0) then true
+  else if l_exact c && (l_elapsed c <? I_NS / 2) then   (* (if, not &&: vm_compute is call-by-value) *)
+    let '(f, h) := lcase_model c in negb ((f =? l_flood c) && zz_eqb h (l_hist c))
+  else false.
+Definition lcase_sig (c : lcase) : N :=
+  let lim := BURST + l_elapsed c / I_NS in
+  if (lim <? l_flood c) || existsb (fun x => lim <? fst x) (l_hist c) then SIG_LONG_RUN else 0%N.
+
 (* ---- exported ---- *)
-Definition case_id (c : case) : N := match c with CS s => s_id s | CR r => r_id r | CC k => k_id k | CX x => x_id x end.
+Definition case_id (c : case) : N := match c with CS s => s_id s | CR r => r_id r | CC k => k_id k | CX x => x_id x | CL l => l_id l end.
 Definition case_sig (c : case) : N :=
   match c with
   | CS s => scase_sig s
   | CR r => if rate_over r then SIG_RATE_OVER else 0%N
   | CC k => ccase_sig k
   | CX x => xcase_sig x
+  | CL l => lcase_sig l
   end.
 Definition case_mismatch (c : case) : bool :=
-  match c with CS s => scase_mismatch s | CR r => rcase_mismatch r | CC k => ccase_mismatch k | CX x => xcase_mismatch x end.
+  match c with CS s => scase_mismatch s | CR r => rcase_mismatch r | CC k => ccase_mismatch k | CX x => xcase_mismatch x | CL l => lcase_mismatch l end.
 
 Definition mismatches (cs : list case) : list N := map case_id (filter case_mismatch cs).
 Definition violations (cs : list case) : list (N * N) :=
   flat_map (fun c => let s := case_sig c in if (s =? 0)%N then [] else [(case_id c, s)]) cs.
 Definition tags (cs : list case) : list (N * N) :=
-  map (fun c => (case_id c, match c with CS s => scase_tag s | CR r => rcase_tag r | CC _ => 1%N | CX x => xcase_tag x end)) cs.
+  map (fun c => (case_id c, match c with CS s => scase_tag s | CR r => rcase_tag r | CC _ => 1%N | CX x => xcase_tag x | CL _ => 1%N end)) cs.
